@@ -57,6 +57,8 @@ def split_steps(path):
                 fa.write(l)
                 if l.startswith(('{"e":"ret"', '{"e":"cfg"', '{"e":"reset"', '{"e":"crash"', '{"e":"end"')):
                     fs.write(l); fb.write(l); fp.write(l)
+                elif l.startswith(('{"e":"os"', '{"e":"call"')):
+                    fb.write(l)          # (AbandonTrace relates purges to the segments a thread has given up, and to the call they happen in)
     os.replace(path + ".api", path)
     if na == 0:
         os.remove(ap)
@@ -203,7 +205,7 @@ def run_conc(prop, tier, seed, jobs_spec, own_guards, mc, builds=("rel", "dbg"),
             if sig in seen:
                 continue
             seen.add(sig)
-            if prop == "C09":
+            if prop == "C09" or (prop == "C13" and name == "NoPurgeAfterAbandon"):
                 keep = os.path.join(vlib.keepdir(prop), os.path.basename(p))
                 shutil.copyfile(p, keep)
                 V.violation(sig, "%s:%d" % (keep, line), "abandonment protocol guard %s failed (%s)" % (name, detail))
